@@ -136,7 +136,8 @@ prop("C19", "proof",
      "Arithmetic theorems: (r + c x)/c = x + r/c; mask_ok: a k-bit blinding with k >= 321 and c < 2^256 keeps floor(s/c) at least 2^64 from the secret for EVERY draw; leak_old: the "
      "pinned lengths leak (F10, repaired by d61047a). requests_tied: the random_bits arguments of sigma_protocols.rs, regenerated on every run, are the model's, and every one is "
      ">= 321 bits for the three shipped suites (finite table). The draw-request correspondence checks the bit length of every logged draw against the model; the sweep runs the "
-     "property's attacker (every response / challenge / ordered pair of responses / secret) on real proofs.", "DESIGN.md §10 C19", NOTE_CL)
+     "property's attacker (every response / challenge / ordered pair of responses / secret) on real proofs. nisp5_hidden_responses_masked: END TO END on the generator of the signature proof -- for every "
+     "list of hidden positions (any order, repeated, beyond a machine word) every response about a hidden attribute is r + m c with r >= 2^(lm + MASK - 1), given random_bits' contract (checked on every run).", "DESIGN.md §10 C19", NOTE_CL)
 
 WIP = "check not yet registered in this commit (machinery under construction; see DESIGN.md §10)"
 ALL = ["C%02d" % i for i in range(1, 20)]
